@@ -81,6 +81,10 @@ func (g *Gen) call(st *State, in ssa.CallInstruction) Val {
 		recv := g.val(st, cc.Value)
 		g.nilCheck(st, recv, pos, "interface method call "+cc.Method.Name())
 		key := ifaceMethodKey(cc.Value.Type(), cc.Method)
+		// an instantiation of a generic interface may carry its own contract
+		if ik := ifaceMethodKeyInst(cc.Value.Type(), cc.Method); ik != "" && g.P.Contracts[ik] != nil {
+			key = ik
+		}
 		if fn, rv, ok := g.devirtualize(st, cc.Value.Type(), cc.Method, recv); ok {
 			return g.staticCall(st, fn, append([]Val{rv}, argVals()...), resTy, pos)
 		}
@@ -150,6 +154,24 @@ func ifaceMethodKey(t types.Type, m *types.Func) string {
 		return "error." + m.Name()
 	}
 	return "iface." + m.Name()
+}
+
+// ifaceMethodKeyInst: the key of a method of an instantiated generic interface,
+// pkg.Name[arg,...].Method, the arguments written with the last element of their
+// package path (as a contract file of that package would write them).
+func ifaceMethodKeyInst(t types.Type, m *types.Func) string {
+	if a, ok := t.(*types.Alias); ok {
+		t = types.Unalias(a)
+	}
+	n, ok := t.(*types.Named)
+	if !ok || n.TypeArgs() == nil || n.TypeArgs().Len() == 0 || n.Obj().Pkg() == nil {
+		return ""
+	}
+	var args []string
+	for i := 0; i < n.TypeArgs().Len(); i++ {
+		args = append(args, types.TypeString(n.TypeArgs().At(i), func(p *types.Package) string { return p.Name() }))
+	}
+	return n.Obj().Pkg().Path() + "." + n.Obj().Name() + "[" + strings.Join(args, ",") + "]." + m.Name()
 }
 
 // callbackContract: the contract attached to a func-typed parameter of the
